@@ -27,6 +27,46 @@ def const_value(unit, e):
     return None, None
 
 
+def stale_tuple(unit, fn, decl_stmt, a):
+    """the arity is `X.size()` of a local X that an enclosing loop re-assigns per element: the assignment of the current
+    element must come before the prefix is built in the iteration; returns a reason when it does not"""
+    from vfacts import enclosing
+    if a is None or a['k'] != 'CXXMemberCallExpr' or method_name(a) != 'size':
+        return None
+    x = strip(a.get('obj'))
+    if x is None or x['k'] != 'DeclRefExpr' or x.get('dk') != 'local':
+        return None
+    v = var_table(fn).get(x['d'])
+    if v is None or v['kind'] != 'local':
+        return None
+    L = enclosing(decl_stmt, ('ForStmt', 'WhileStmt', 'DoStmt', 'CXXForRangeStmt'))
+    while L is not None:
+        asg = []
+        for m in walk(L.get('body'), lambdas=False):
+            if m['k'] in ('CXXOperatorCallExpr', 'BinaryOperator') and m.get('op') == '=':
+                ops = m.get('args') or m.get('ch')
+                if ops and (strip(ops[0]) or {}).get('d') == x['d']:
+                    asg.append(m)
+        if asg and not any(z is v['node'] for z in walk(L)):
+            cfg = fn.cfg()
+            body = L['body']
+            first = None
+            for m_ in walk(body):
+                if m_ is not body and cfg is not None and cfg.locate(m_) is not None:
+                    first = m_
+                    break
+            if cfg is None or first is None:
+                return None
+            ids = {id(z) for z in walk(decl_stmt)}
+            aid = {id(z) for m in asg for z in walk(m)}
+            ok, _ = must_pass_through(cfg, cfg.locate(first), lambda z: id(z) in ids, lambda z: id(z) in aid, start_after=False)
+            if not ok:
+                return 'the arity is taken from `%s`, which the enclosing loop assigns only *after* this point of the iteration (line %d): the prefix carries the arity of the previously visited tuple' % (x.get('n'), unit.loc(asg[0])[1])
+            return None
+        L = enclosing(L, ('ForStmt', 'WhileStmt', 'DoStmt', 'CXXForRangeStmt'))
+    return None
+
+
 def run(unit, em):
     consts = {}
     for fn in unit.functions:
@@ -61,7 +101,10 @@ def run(unit, em):
                                 prefixes[d['d']] = n
                             a = strip(i['args'][1])
                             at = unit.text(a, 0) if a is not None else ''
-                            if at.endswith('.size()') or (a is not None and a['k'] == 'DeclRefExpr' and a.get('dk') == 'param'):
+                            stale = stale_tuple(unit, fn, n, a)
+                            if stale:
+                                em.violation(n, txt + ' value', stale, 'A3')
+                            elif at.endswith('.size()') or (a is not None and a['k'] == 'DeclRefExpr' and a.get('dk') == 'param'):
                                 em.ok(n, txt + ' value', 'arity is %s' % at, 'A3')
                             else:
                                 em.unknown(n, txt + ' value', 'arity expression %s' % at, 'A3')
